@@ -15,6 +15,7 @@ PARTIAL = ["the theorems are proved for the protocol-decision layer of Model/Inb
            "carried by the correspondence run only"]
 USES_GEN = True
 WANT = ("C17",)
+PROPS_FILES = ["C17", "C17router"]
 
 
 class AliasLimitAtHandshake(HS.HsPart):
